@@ -1,6 +1,8 @@
 import Cfi.Line
 import Spec.C02
 import Proofs.Splice
+import Proofs.Layout
+import Proofs.LineShape
 /-! C02 — property theorems. -/
 namespace Props.C02
 open Cfi Cfi.Text Spec.C02
@@ -191,6 +193,27 @@ theorem field_write_bin (f : Field) (v : Val) (line value : List UInt8)
 is the documented one (literal 80, integer 8, float 8 / 4 decimals / F / ".",
 date 16 / `%Y/%m/%d`, all at column 0).  Breaks the build if a default changes. -/
 theorem defaults : defaultsOk = true := by decide
+
+/-- **Line shape** (any number of fields, any order, gaps): a written text line is
+exactly as long as the furthest field end plus one newline, ends in that
+newline, and every column outside the fields is blank.  `rs` are the fields'
+renderings (each exactly `size` wide — `rendersTo`). -/
+theorem line_shape (fs : List Field) (vs : List Val) (rs : List (List Char))
+    (hlen : fs.length = vs.length)
+    (hr : All2 (fun (fv : Field × Val) r => rendersTo fv.1 fv.2 r) (fs.zip vs) rs)
+    (w : List Char) (hw : writePos fs vs = .ok w) :
+    w.length = maxEnd fs + 1 ∧ w.getLast? = some '\n' ∧
+    ∀ i, i < maxEnd fs → covered fs i = true ∨ w[i]? = some ' ' :=
+  writePos_shape fs vs rs hlen hr w hw
+
+/-- **Each field's rendering sits in its own span** of the written line, for every
+layout of pairwise disjoint fields in any order -/
+theorem line_spans (fs : List Field) (vs : List Val) (rs : List (List Char))
+    (hlen : fs.length = vs.length)
+    (hr : All2 (fun (fv : Field × Val) r => rendersTo fv.1 fv.2 r) (fs.zip vs) rs)
+    (hdis : Cfi.Disjoint fs) (out : List Char) (hw : writeFields fs vs [] = .ok out) :
+    All2 (fun (f : Field) r => slice out f.start f.stop = r) fs rs :=
+  writeFields_spans fs vs rs hlen hr hdis [] out hw
 
 /-- non-vacuity -/
 example : fits (Field.mk' .int 5 3) (.int (-42)) = true ∧
